@@ -60,11 +60,64 @@ def removeBackslashNewlineAux : List Nat → Nat → List Nat
 
 def removeBackslashNewline (p : List Nat) : List Nat := removeBackslashNewlineAux p 0
 
-/-- the text `tokenize()` numbers: `read_file`, BOM skip, `canonicalize_newline`, `remove_backslash_newline`.
-    (`convert_universal_chars` runs after these; it neither adds nor removes a '\n' unless the file spells the
-    universal character name `\u000a`, which C11 6.4.3p2 forbids; it is not modelled here — see ASSUMPTIONS of the check.) -/
+/-- the text after `read_file`, BOM skip, `canonicalize_newline`, `remove_backslash_newline`
+    (`convert_universal_chars` still to come: `tokenizerText`) -/
 def sourceText (bytes : List Nat) : List Nat :=
   removeBackslashNewline (canonicalizeNewline (skipBOM (ensureFinalNewline bytes)))
+
+/-- `isxdigit` in the C locale (bytes ≥ 128 are not digits) -/
+def isXDigit (c : Nat) : Bool := (48 ≤ c && c ≤ 57) || (65 ≤ c && c ≤ 70) || (97 ≤ c && c ≤ 102)
+
+/-- `from_hex` -/
+def fromHex (c : Nat) : Nat := if 48 ≤ c ∧ c ≤ 57 then c - 48 else if 97 ≤ c ∧ c ≤ 102 then c - 97 + 10 else c - 65 + 10
+
+/-- `read_universal_char(p, len)`: 0 as soon as one of the `len` bytes is not a hexadecimal digit (the terminator is not one);
+    `(c << 4) | from_hex(p[i])` on `uint32_t` (at most 8 digits: no wrap-around) -/
+def readUniversalChar : List Nat → Nat → Nat → Nat
+  | _, 0, c => c
+  | [], _ + 1, _ => 0
+  | b :: r, n + 1, c => if isXDigit b then readUniversalChar r n (c * 16 + fromHex b) else 0
+
+/-- `encode_utf8` (unicode.c); `buf[0] = 0b11110000 | (c >> 18)` is truncated to a `char` -/
+def encodeUtf8 (c : Nat) : List Nat :=
+  if c ≤ 0x7F then [c]
+  else if c ≤ 0x7FF then [0xC0 ||| (c >>> 6), 0x80 ||| (c &&& 0x3F)]
+  else if c ≤ 0xFFFF then [0xE0 ||| (c >>> 12), 0x80 ||| ((c >>> 6) &&& 0x3F), 0x80 ||| (c &&& 0x3F)]
+  else [(0xF0 ||| (c >>> 18)) % 256, 0x80 ||| ((c >>> 12) &&& 0x3F), 0x80 ||| ((c >>> 6) &&& 0x3F), 0x80 ||| (c &&& 0x3F)]
+
+/-- `convert_universal_chars`, annotated: every output byte is paired with the offset (in the input text, counted from `s`) of
+    the input byte it is a copy of; all bytes of an encoded universal character name are attributed to its backslash.
+    Fuel: one unit per loop iteration (`length + 1` suffices). -/
+def convertUCNAux : Nat → List Nat → Nat → List (Nat × Nat)
+  | 0, _, _ => []
+  | _ + 1, [], _ => []
+  | f + 1, a :: rest, s =>
+    if a = BSL then
+      match rest with
+      | [] => [(a, s)]    -- (`*q++ = *p++; *q++ = *p++;` would copy the terminator and run on; texts end in '\n', so a backslash is never last)
+      | b :: rest' =>
+        if b = 117 then                                       -- "\\u"
+          let c := readUniversalChar rest' 4 0
+          if c ≠ 0 then (encodeUtf8 c).map (·, s) ++ convertUCNAux f (rest'.drop 4) (s + 6)
+          else (a, s) :: convertUCNAux f rest (s + 1)
+        else if b = 85 then                                   -- "\\U"
+          let c := readUniversalChar rest' 8 0
+          if c ≠ 0 then (encodeUtf8 c).map (·, s) ++ convertUCNAux f (rest'.drop 8) (s + 10)
+          else (a, s) :: convertUCNAux f rest (s + 1)
+        else (a, s) :: (b, s + 1) :: convertUCNAux f rest' (s + 2)
+    else (a, s) :: convertUCNAux f rest (s + 1)
+
+def convertUCN (p : List Nat) : List (Nat × Nat) := convertUCNAux (p.length + 1) p 0
+
+/-- `convert_universal_chars` -/
+def convertUniversalChars (p : List Nat) : List Nat := (convertUCN p).map (·.1)
+
+/-- the text `tokenize()` sees and `add_line_numbers` numbers -/
+def tokenizerText (bytes : List Nat) : List Nat := convertUniversalChars (sourceText bytes)
+
+/-- no universal character name of the text denotes U+000A: every '\n' that `convert_universal_chars` writes is a copy of a
+    '\n' of its input.  (C11 6.4.3p2 forbids `\u000a`; with it a single source line becomes two for chibicc.) -/
+def noNewlineUCN (p : List Nat) : Bool := (convertUCN p).all (fun e => e.1 != LF || p[e.2]? == some LF)
 
 /-! ## line numbers -/
 
@@ -274,7 +327,14 @@ def tokenStart (bytes : List Nat) (off : Nat) : Bool :=
   | some c => c != LF && c != CR
   | none => false
 
-/-- line number chibicc's tokenizer gives the token whose first byte is at offset `off` of the file -/
+/-- line number of the image of file offset `off` in the text before `convert_universal_chars` -/
 def lineNoAt (bytes : List Nat) (off : Nat) : Nat := lineNoOf (sourceText bytes) (posMap bytes off)
+
+/-- offset in `tokenizerText bytes` of the byte that came from file offset `off` (the text length if there is none) -/
+def finalPos (bytes : List Nat) (off : Nat) : Nat :=
+  (convertUCN (sourceText bytes)).findIdx (fun e => e.2 == posMap bytes off)
+
+/-- line number chibicc's tokenizer (`add_line_numbers`) gives the token whose first byte is at offset `off` of the file -/
+def lineNoFinal (bytes : List Nat) (off : Nat) : Nat := lineNoOf (tokenizerText bytes) (finalPos bytes off)
 
 end ChibiVerif.LineNo
